@@ -501,7 +501,11 @@ func (f *Fam) buildMsg(t txSpec) sdk.Msg {
 	case "daotransfer":
 		return govTypes.MsgDAOTransfer{FromAddress: unhex(g["from"]), ToAddress: unhex(g["to"]), Amount: mustInt(g["amt"]), Action: govTypes.DAOTransferString}
 	case "daoburn":
-		return govTypes.MsgDAOTransfer{FromAddress: unhex(g["from"]), Amount: mustInt(g["amt"]), Action: govTypes.DAOBurnString}
+		m := govTypes.MsgDAOTransfer{FromAddress: unhex(g["from"]), Amount: mustInt(g["amt"]), Action: govTypes.DAOBurnString}
+		if g["to"] != "" { // a burn may carry a recipient; the handler ignores it, the signature covers it
+			m.ToAddress = unhex(g["to"])
+		}
+		return m
 	case "upgrade":
 		return govTypes.MsgUpgrade{Address: unhex(g["from"]), Upgrade: govTypes.NewUpgrade(atoi(g["h"]), g["ver"])}
 	}
@@ -579,6 +583,43 @@ func (f *Fam) txBytes(t txSpec) ([]byte, sdk.Msg) {
 		for k, v := range t.f {
 			t2.f[k] = v
 		}
+		other := hx(Keys[(t.signer+1)%NKeys].Addr)
+		switch mf := t.f["mf"]; {
+		case mf == "to" && (t.kind == "send" || t.kind == "daotransfer" || t.kind == "daoburn"):
+			if t2.f["to"] == other {
+				other = hx(Keys[(t.signer+2)%NKeys].Addr)
+			}
+			t2.f["to"] = other
+			msg = f.buildMsg(t2)
+			return f.finishTx(t, msg, fee, sig, memo)
+		case mf == "toempty" && t.kind == "daoburn": // the recipient of a burn removed
+			t2.f["to"] = ""
+			msg = f.buildMsg(t2)
+			return f.finishTx(t, msg, fee, sig, memo)
+		case mf == "action" && (t.kind == "daotransfer" || t.kind == "daoburn"): // a transfer turned into a burn, or back
+			if t.kind == "daotransfer" {
+				t2.kind = "daoburn"
+			} else {
+				t2.kind = "daotransfer"
+				if t2.f["to"] == "" {
+					t2.f["to"] = other
+				}
+			}
+			msg = f.buildMsg(t2)
+			return f.finishTx(t, msg, fee, sig, memo)
+		case mf == "ver" && t.kind == "upgrade":
+			t2.f["ver"] = t.f["ver"] + "1"
+			msg = f.buildMsg(t2)
+			return f.finishTx(t, msg, fee, sig, memo)
+		case mf == "key" && t.kind == "changeparam": // the same value aimed at another parameter
+			if t.f["key"] == "pos/StakeMinimum" {
+				t2.f["key"] = "pos/MaxValidators"
+			} else {
+				t2.f["key"] = "pos/StakeMinimum"
+			}
+			msg = f.buildMsg(t2)
+			return f.finishTx(t, msg, fee, sig, memo)
+		}
 		switch t.kind {
 		case "send", "stake", "daotransfer", "daoburn":
 			t2.f["amt"] = mustInt(t.f["amt"]).AddRaw(1).String()
@@ -597,6 +638,11 @@ func (f *Fam) txBytes(t txSpec) ([]byte, sdk.Msg) {
 	case "emptysig":
 		sig = nil
 	}
+	return f.finishTx(t, msg, fee, sig, memo)
+}
+
+// finishTx wraps the (possibly altered) message, fee, memo and the signature into the wire bytes
+func (f *Fam) finishTx(t txSpec, msg sdk.Msg, fee sdk.Coins, sig []byte, memo string) ([]byte, sdk.Msg) {
 	ss := authTypes.StdSignature{Signature: sig}
 	if t.pk {
 		ss.PublicKey = Keys[t.signer].Pub
